@@ -1,5 +1,9 @@
 import FV.Drv.Common
+import FV.Drv.Netlist
 import FV.Model.Die
+import FV.Model.DieNet
+import FV.Model.DieObj
+import FV.Model.NetlistStog
 /-
   op table for the die model (property C01).
 
@@ -9,6 +13,19 @@ import FV.Model.Die
     doc    = prefix form of the YAML tree: `n <scalar>` | `s <string>` | `e` (empty string) | `z` (null) |
              `l <k> item*` | `m <k> (key item)*`
     picks  = <k> (rmin rmax cmin cmax)*
+
+  ops on the DOCUMENTS (FV/Model/DieNet.lean, FV/Model/DieObj.lean) — the fixed rectangles are computed by the model from the
+  netlist document, the `<w>x<h>` shorthand is split by the model:
+    <mode> cgrid     <state> <src> <netl>
+    <mode> construct <state> <src> <netl> <picks?>
+    <mode> session   <state> <src> <netl> <picks?> <k> call*         (constructor, then method calls on the object)
+    src    = `T <doc>` (a tree) | `O` (neither str, tree nor text stream) | `H (Y <doc> | -)` (an open text stream) |
+             `S x<hex> <k> (x<hex of piece> (n <scalar> | -))* (Y <doc> | -)`   a `str`: the text, the answers of `float()` on
+             the pieces of `rsplit('x')`, what `read_yaml` returns for it (`-` = it raised)
+    netl   = `-` (no netlist) | `N <tree in the format of drv_netlist>`
+    picks? = `-` (deterministic cover) | `P <k> (rmin rmax cmin cmax)*`
+    call   = `s <ratio> <n>` (split_refinable_regions) | `g <nrows> <ncols>` (initial_grid)
+  `math.sqrt` / the literal `1e-12`: `Float.sqrt`, `1e-12` in mode F; `ratSqrt` (30 digits), `1/10^12` in mode Q.
 -/
 namespace FV.Drv
 open FV FV.Rect FV.Die
@@ -109,6 +126,126 @@ def dieOp (sqrtF : Option (α → α)) (op : String) (args : List String) : Opti
         let sqrt : α → α := match sqrtF with | some f => f | none => fun _ => sq
         let es := mkEps sqrt st w h
         s!"{sc es.1.d} {sc es.1.a} {sc es.1.die} {sc es.2.1} {sc es.2.2}"
+  | _ => none
+
+/-! ### ops on the documents -/
+
+open FV.DieNet FV.DieObj in
+structure CReq (α : Type) where
+  st : Option (α × α)
+  src : DieNet.Src α
+  pf : List Char → Option α
+  ry : String → Option (YV α)
+  netl : Option (YVal α)
+
+def pSrc : P (DieNet.Src α × (List Char → Option α) × (String → Option (YV α))) := do
+  let t ← tok
+  match t with
+  | "T" => do let d ← pYV (α := α); pure (.tree d, fun _ => none, fun _ => none)
+  | "O" => pure (.other, fun _ => none, fun _ => none)
+  | "H" => do
+      let k ← tok
+      match k with
+      | "Y" => do let d ← pYV (α := α); pure (.handle (some d), fun _ => none, fun _ => none)
+      | "-" => pure (.handle none, fun _ => none, fun _ => none)
+      | _ => failure
+  | "S" => do
+      let s ← pStr
+      let table ← pList (do
+        let piece ← pStr
+        let k ← tok
+        match k with
+        | "n" => do let x ← pSc (α := α); pure (piece, some x)
+        | "-" => pure (piece, none)
+        | _ => failure)
+      let k ← tok
+      let tree : Option (YV α) ← (match k with
+        | "Y" => do let d ← pYV (α := α); pure (some d)
+        | "-" => pure none
+        | _ => failure)
+      let pf : List Char → Option α := fun cs =>
+        match table.find? (fun e => e.1 == String.ofList cs) with
+        | some e => e.2
+        | none => none
+      pure (.str s, pf, fun s' => if s' == s then tree else none)
+  | _ => failure
+
+def pNetl : P (Option (YVal α)) := do
+  let t ← tok
+  match t with
+  | "-" => pure none
+  | "N" => do let y ← pY (α := α); pure (some y)
+  | _ => failure
+
+def pCReq : P (CReq α) := do
+  let st ← pState (α := α)
+  let (src, pf, ry) ← pSrc (α := α)
+  let netl ← pNetl (α := α)
+  pure { st, src, pf, ry, netl }
+
+def pPicksOpt : P (Option (List IRect)) := do
+  let t ← tok
+  match t with
+  | "-" => pure none
+  | "P" => do let l ← pList pIRect; pure (some l)
+  | _ => failure
+
+def pCall : P (DieObj.Call α) := do
+  let t ← tok
+  match t with
+  | "s" => do let r ← pSc (α := α); let n ← pNat; pure (.split r n)
+  | "g" => do let a ← pNat; let b ← pNat; pure (.grid a b)
+  | _ => failure
+
+def showObj (o : DieOut α) : String :=
+  s!"{showRects o.specialized} || {showRects o.ground} || {showRects o.blockages} || {showRects o.fixed}"
+
+/-- the constructor from the documents; the picks actually used are printed (the deterministic ones when none were given). -/
+def runConstruct (sqrt : α → α) (tiny : α) (q : CReq α) (picks : Option (List IRect)) :
+    Except String (DieOut α × String) :=
+  let stog := fun (d a : α) => NL.stogC06 d a
+  match DieNet.gridFor q.pf q.ry sqrt tiny stog q.st q.netl q.src with
+  | .error e => .error e.toStr
+  | .ok (inp, fixed, eps) =>
+    let pk : Except Die.Err (List IRect) := match picks with
+      | some p => .ok p
+      | none => detPicks eps inp fixed
+    match pk with
+    | .error e => .error e.toStr
+    | .ok p =>
+      match DieNet.construct q.pf q.ry sqrt tiny stog q.st q.netl q.src (some p) with
+      | .error e => .error e.toStr
+      | .ok (o, e, st) => .ok (o, showOut o e st p [])
+
+def docOp (sqrt : α → α) (tiny : α) (fuelOf : List (Rect α) → α → Nat → Nat) (op : String) (args : List String) :
+    Option String :=
+  match op with
+  | "cgrid" => (runP (pCReq (α := α)) args).map fun q =>
+      match DieNet.gridFor q.pf q.ry sqrt tiny (fun d a => NL.stogC06 d a) q.st q.netl q.src with
+      | .error e => e.toStr
+      | .ok (inp, fixed, eps) =>
+        let g := gridOf eps inp fixed
+        let nc := g.1.length - 1
+        let nr := g.2.length - 1
+        let m := occ g.1 g.2 (occRects inp fixed)
+        let rows := (List.range nr).map fun r => String.join ((List.range nc).map fun c => b01 (m r c))
+        s!"ok {showScs g.1} ; {showScs g.2} ; {nr}" ++ String.join (rows.map fun s => " " ++ s ++ ".")
+  | "construct" => (runP (do let q ← pCReq (α := α); let p ← pPicksOpt; pure (q, p)) args).map fun (q, p) =>
+      match runConstruct sqrt tiny q p with
+      | .error e => e
+      | .ok (_, line) => line
+  | "session" => (runP (do let q ← pCReq (α := α); let p ← pPicksOpt; let cs ← pList (pCall (α := α)); pure (q, p, cs)) args).map
+      fun (q, p, cs) =>
+      match runConstruct sqrt tiny q p with
+      | .error e => e
+      | .ok (o, line) =>
+        let r := DieObj.run fuelOf o cs
+        line ++ String.join (r.2.map fun (o', err) =>
+          " ;; " ++ (match err with | some e => e.toStr | none => "ok " ++ showObj o'))
+  | "splitq" => (runP (do let ratio ← pSc (α := α); let n ← pNat; let rs ← pList pRect; pure (ratio, n, rs)) args).map
+      fun (ratio, n, rs) => match SplitRects.splitRectangles (fuelOf rs ratio n) rs ratio n with
+        | .error e => e.toStr ++ s!" fuel {fuelOf rs ratio n}"
+        | .ok out => showRects out ++ s!" fuel {fuelOf rs ratio n}"
   | _ => none
 
 end FV.Drv
